@@ -1482,26 +1482,47 @@ fn eval_call(
             },
 
             CallBinding::Func{bindings, mut closure, stmts} => {
+                // A `break` or `continue` that escapes the body of the
+                // function is an error of this call, so it's located at the
+                // offending statement and reported through the same
+                // `EvalFuncCallFailed` context as any other error raised while
+                // the function is running.
                 let v = eval_stmts(
                     context,
                     &mut closure,
                     bindings,
                     &stmts,
                 )
+                    .and_then(|v| {
+                        match v {
+                            Escape::Break{loc: (line, col)} =>
+                                Err(Error::AtLoc{
+                                    source: Box::new(Error::BreakOutsideLoop),
+                                    line,
+                                    col,
+                                }),
+                            Escape::Continue{loc: (line, col)} =>
+                                Err(Error::AtLoc{
+                                    source: Box::new(
+                                        Error::ContinueOutsideLoop,
+                                    ),
+                                    line,
+                                    col,
+                                }),
+                            v =>
+                                Ok(v),
+                        }
+                    })
                     .context(EvalFuncCallFailed{
                         func_name,
                         call_loc: (*line, *col),
                     })?;
 
                 match v {
-                    Escape::None =>
-                        value::new_null(),
-                    Escape::Break{..} =>
-                        return Err(Error::BreakOutsideLoop),
-                    Escape::Continue{..} =>
-                        return Err(Error::ContinueOutsideLoop),
                     Escape::Return{value, ..} =>
                         value,
+                    _ =>
+                        value::new_null(),
                 }
             },
         };
